@@ -322,9 +322,7 @@ func runCWorld(seed int64, stream int64, idx int, rep *Report) {
 	}
 	wg.Wait()
 	w.checkQuiescent(rep)
-	if len(w.viol) == 0 {
-		w.settle(r, rep)
-	}
+	w.settle(r, rep)
 	rep.Inc("concurrent_tournaments")
 	for _, v := range w.viol {
 		rep.Violate(v)
